@@ -4,6 +4,7 @@ import Proofs.InterpScope
 import Proofs.InterpCalls
 import Proofs.InterpEnum
 import Proofs.InterpReturn
+import Proofs.CallShape
 
 /-!
   C15 — Callable model elements behave as their OAL bodies specify.
@@ -437,6 +438,242 @@ example : valOf (runFunction C2 20 [
       .ret (some (.bin .add (.bin .add (.bin .mul (.var "x1") (.int 1000000)) (.bin .mul (.var "x2") (.int 10000)))
                             (.bin .add (.bin .mul (.var "x3") (.int 100)) (.var "x4"))))]
     [] st2) = some (.int (0 * 1000000 + 6 * 10000 + 14 * 100 + 0)) := by
+  decide +kernel
+
+end PyxProps.C15
+
+/-! ==========================================================================================================
+  SOURCE TIE OF THE CALL PATH'S STATEMENT STRUCTURE (builder call-shape) — appended section
+  translator/gen_callshape.py re-reads, with `ast`, everything between an OAL invocation and the body it runs — in
+  bridgepoint/interpret.py: accept_ParameterListNode, the five accept_*InvocationNode handlers, accept_EnumOrNamedConstantNode,
+  accept_ParamAccessNode / accept_SelfAccessNode, the walkers' `__init__`, run_function / run_operation / run_derived_attribute,
+  InstanceSymbolTable.find_symbol; in bridgepoint/ooaofooa.py: Domain.add_symbol / find_symbol, mk_function / mk_bridge /
+  mk_operation / mk_derived_attribute / mk_external_entity / mk_enum / mk_constant, the add_symbol calls of mk_component — into
+  Gen/CallShape.lean.  Proofs/CallShape.lean defines ONE generic interpreter of that IR over Spec's configurations
+  (`Pyx.CShape`, for any IR value).  The theorems below state that the clauses of `Spec` / `Model` ARE the interpretation of the
+  IR generated from the current source — for every context, oracle (= every sub-result, every amount of fuel, calls nested to
+  any depth in the actual parameters), configuration and EVERY content `u` of the untyped dictionary `Domain.symbols` — so
+  collecting the parameters anywhere but in the local dict, storing one under another key, asking find_symbol for another kind
+  or kinds in another order, looking an enumerator up among the constants, fetching the operation from something else than the
+  handle's class, calling it without the instance, binding `self` of a class-based operation to the class, another walker class
+  / constructor order / symbol table, returning something else than `w.return_value`, following R56 the other way or another
+  type-to-conversion table changes the IR and breaks these theorems before any test runs; a statement outside the translated
+  fragment makes the generator raise (broken tie).  NOT in these equations: the meaning of the atoms (listed at the head of
+  Proofs/CallShape.lean: hand-modelled, digest-checked environment, validated by correspondence); where `Spec` is LOOSER than
+  the source the theorem carries the hypothesis that makes them agree (`Spec` resolves `transform KL::op()` and `bridge EE::f()`
+  like `NS::f()`, bridge first then class operation; the source asks for kind 'class' resp. 'external entity' only, and evaluates
+  a class invocation's parameters AFTER the look-up).
+  ========================================================================================================== -/
+namespace PyxProps.C15
+open Pyx.Interp Pyx.CShape Pyx.Gen.CallShape
+
+/-- actual parameters: a LOCAL dict, filled child by child in source order under the child's name with the value of its
+    expression (which may contain further invocations: they have their own dict), and returned -/
+theorem parameters_as_in_source (C : Ctx) (P : Parts) (D : Dom) (rec : Oracle) (args : List (String × Expr)) :
+    evalArgs rec args = handlerK C P D rec { children := paramNodes rec args } accept_ParameterListNode :=
+  paramList_eq C P D rec args
+
+/-- `::f(args)`: parameters first, then `find_symbol(action_name, 'function')`, then `fn(**kwargs)` — through mk_function's
+    lambda, run_function, FunctionWalker.__init__ (kwargs stored, plain symbol table), `w.accept(root)`, `return w.return_value` -/
+theorem function_call_as_in_source (C : Ctx) (u : String → Option Sym) (rec : Oracle) (name : String)
+    (args : List (String × Expr)) (f : Callable)
+    (hf : findCallable C (fun f => f.kind = .function ∧ f.name = name) = some f) :
+    evalStep C rec (.call .function name args) =
+      handlerE C gen (domOf C u) rec (invNode C gen (domOf C u) rec [("action_name", name)] none args)
+        accept_FunctionInvocationNode :=
+  function_call_eq C u rec name args f hf
+
+/-- name-space dispatch of `bridge EE::f()`, `NS::f()` (external entity BEFORE class) and `transform KL::op()` (class only,
+    parameters after the look-up); the bridge runs as a function, the class-based operation in an operation walker with the
+    empty handle as `self` -/
+theorem namespace_calls_as_in_source (C : Ctx) (u : String → Option Sym) (rec : Oracle) (ns name : String)
+    (args : List (String × Expr)) (f : Callable) :
+    (findCallable C (fun f => f.kind = .bridge ns ∧ f.name = name) = some f →
+      evalStep C rec (.call (.bridge ns) name args) =
+        handlerE C gen (domOf C u) rec (invNode C gen (domOf C u) rec [("namespace", ns), ("action_name", name)] none args)
+          accept_BridgeInvocationNode ∧
+      evalStep C rec (.call (.implicit ns) name args) =
+        handlerE C gen (domOf C u) rec (invNode C gen (domOf C u) rec [("namespace", ns), ("action_name", name)] none args)
+          accept_ImplicitInvocationNode) ∧
+    (hasBridges C ns = false → (findClass C ns).isSome = true →
+      findCallable C (fun f => f.kind = .classOp ns ∧ f.name = name) = some f →
+      evalStep C rec (.call (.implicit ns) name args) =
+        handlerE C gen (domOf C u) rec (invNode C gen (domOf C u) rec [("namespace", ns), ("action_name", name)] none args)
+          accept_ImplicitInvocationNode) ∧
+    (findCallable C (fun f => f.kind = .bridge ns ∧ f.name = name) = none → (findClass C ns).isSome = true →
+      findCallable C (fun f => f.kind = .classOp ns ∧ f.name = name) = some f →
+      evalStep C rec (.call (.classOp ns) name args) =
+        handlerE C gen (domOf C u) rec (invNode C gen (domOf C u) rec [("key_letter", ns), ("action_name", name)] none args)
+          accept_ClassInvocationNode) :=
+  ⟨fun hb => ⟨bridge_call_eq C u rec ns name args f hb, implicit_bridge_call_eq C u rec ns name args f hb⟩,
+   fun hne hcls hc => implicit_classOp_call_eq C u rec ns name args f hne hcls hc,
+   fun hnb hcls hc => class_call_eq C u rec ns name args f hnb hcls hc⟩
+
+/-- `h.op(args)`: the handle, then the operation fetched from THE HANDLE'S CLASS, then the parameters, then `op(inst, **kwargs)`:
+    mk_operation's instance-based lambda hands the instance to run_operation as `self` — found or not, for every handle value
+    (no class-based operation carries the name: the two share one attribute of the class) -/
+theorem instance_call_as_in_source (C : Ctx) (u : String → Option Sym) (rec : Oracle) (h : Expr) (name : String)
+    (args : List (String × Expr))
+    (hnc : ∀ kl, findCallable C (fun f => f.kind = .classOp kl ∧ f.name = name) = none) :
+    evalStep C rec (.callInst h name args) =
+      handlerE C gen (domOf C u) rec (invNode C gen (domOf C u) rec [("action_name", name)] (some (rec.eval h)) args)
+        accept_InstanceInvocationNode :=
+  instance_call_eq C u rec h name args hnc
+
+/-- what the constructors bind: mk_function / mk_bridge run the action as a function with the call's parameters; mk_operation
+    binds `self` to the instance (instance based) or to None (class based, the classmethod's `cls` is dropped); mk_derived_attribute
+    runs the action in a derived-attribute walker for (instance, attribute name) without parameters — each through its run_*
+    function, the walker's constructor chain and `return w.return_value` -/
+theorem constructors_bind_as_in_source (rec : Oracle) (f : Callable) (kl : String) (v : Val) (i : Inst) (kw : List (String × Val)) :
+    callCallee gen rec ⟨mk_function, f, none⟩ [] (some kw) = invoke rec .function f.body kw .none ∧
+    callCallee gen rec ⟨mk_bridge, f, none⟩ [] (some kw) = invoke rec .function f.body kw .none ∧
+    callCallee gen rec ⟨mk_operation_instance_based, f, some kl⟩ [.val v] (some kw) = invoke rec .operation f.body kw v ∧
+    callCallee gen rec ⟨mk_operation_class_based, f, some kl⟩ [] (some kw) = invoke rec .operation f.body kw .none ∧
+    callCallee gen rec ⟨mk_derived_attribute, f, some kl⟩ [.val (.inst i)] none = invoke rec (.derived i f.name) f.body [] (.inst i) :=
+  ⟨call_function_eq rec f kw, call_bridge_eq rec f kw, call_opInst_eq rec f (some kl) v kw, call_opCls_eq rec f kl kw,
+   call_derived_eq rec f (some kl) i⟩
+
+/-- the walkers: which class with which constructor arguments each run function creates, what the constructor chain stores
+    (kwargs, instance, attribute name; the symbol table assigned LAST: plain for functions, the instance table for operations
+    and derived attributes) and that the result is the walker's `return_value` after `w.accept(root)` (None = nothing when no
+    `return <expr>` ran: `mkFrame`'s register) -/
+theorem walkers_as_in_source (rec : Oracle) (body : Block) (kw : List (String × Val)) (v : Val) (a : String) (i : Inst) :
+    iRun gen rec run_function [.dom, .label, .body body, .kwargs kw] = invoke rec .function body kw .none ∧
+    iRun gen rec run_operation [.dom, .label, .body body, .kwargs kw, .val v] = invoke rec .operation body kw v ∧
+    iRun gen rec run_derived_attribute [.dom, .label, .body body, .str a, .val (.inst i)] =
+      invoke rec (.derived i a) body [] (.inst i) ∧
+    newWalker gen "FunctionWalker" [.dom, .kwargs kw] = some (mkFrame .function kw .none) ∧
+    newWalker gen "OperationWalker" [.dom, .kwargs kw, .val v] = some (mkFrame .operation kw v) ∧
+    newWalker gen "DerivedAttributeWalker" [.dom, .str a, .val (.inst i)] = some (mkFrame (.derived i a) [] (.inst i)) :=
+  ⟨run_function_eq rec body kw, run_operation_eq rec body kw v, run_derived_eq rec body a i, newWalker_function kw,
+   newWalker_operation kw v, newWalker_derived a i⟩
+
+/-- `E::name`: `find_symbol(namespace, 'enumeration')` — the enumeration ONLY, whatever constants exist — then the field `name`
+    of the namedtuple, whose value is its position (`Enum(*range(len(enums)))`) -/
+theorem enumerator_as_in_source (C : Ctx) (u : String → Option Sym) (rec : Oracle) (ns name : String) (d : EnumDecl)
+    (hd : C.enums.find? (fun d => d.name = ns) = some d) :
+    evalStep C rec (.enumOrConst ns name) =
+      handlerE C gen (domOf C u) rec { str := fun f => ([("namespace", ns), ("name", name)].lookup f).getD "" }
+        accept_EnumOrNamedConstantNode :=
+  enumerator_eq C u rec ns name d hd
+
+/-- `param.x` = `self.kwargs[variable_name]` in function and operation walkers; `self` = `self.instance` in operation and
+    derived-attribute walkers; the NAME self (any letter case) = InstanceSymbolTable.find_symbol, which functions do not have -/
+theorem param_self_as_in_source (C : Ctx) (P : Parts) (D : Dom) (rec : Oracle) (x : String) (c : Cfg) :
+    (c.fr.kind = .function → evalStep C rec (.param x) c = handlerE C P D rec (paramNode x) FunctionWalker_accept_ParamAccessNode c) ∧
+    (c.fr.kind = .operation → evalStep C rec (.param x) c = handlerE C P D rec (paramNode x) OperationWalker_accept_ParamAccessNode c) ∧
+    (c.fr.kind ≠ .function → evalStep C rec .self c = handlerE C P D rec {} OperationWalker_accept_SelfAccessNode c ∧
+        evalStep C rec .self c = handlerE C P D rec {} DerivedAttributeWalker_accept_SelfAccessNode c) ∧
+    (c.fr.kind ≠ .function → lookupVar C x c = symFindStmts C x InstanceSymbolTable_find_symbol c) ∧
+    (c.fr.kind = .function → lookupVar C x c = plainFind C x c) :=
+  ⟨param_function_eq C P D rec x c, param_operation_eq C P D rec x c, self_operation_eq C P D rec c, (self_name_eq C x c).1,
+   (self_name_eq C x c).2⟩
+
+/-- mk_enum: the first enumerator is the one that `succeeds` nothing, the chain follows `precedes`; mk_constant: the
+    type-name-to-conversion chain in source order (a real has no value in the reference semantics) -/
+theorem mk_enum_mk_constant_as_in_source (rows : List EnumRow) (tyName text : String) :
+    enumOrder rows = iEnumOrder mk_enum rows ∧ constVal tyName text = iConst mk_constant tyName text :=
+  ⟨enumOrder_eq rows, constVal_eq tyName text⟩
+
+/-- the two files agree on the kinds: every kind a handler asks `find_symbol` for is the kind under which mk_component
+    registers what the handler then uses (function / enumeration / external entity; the class is found by the class probe),
+    constants are registered as 'constant' (what SymbolTable.find_symbol asks for), a walker class defines accept_ParamAccessNode
+    / accept_SelfAccessNode exactly where `Spec`'s `param` / `self` are defined, and `return_value` starts as None -/
+theorem kinds_and_walkers_as_in_source :
+    (registrations.map (fun r => (r.2.1, r.2.2))) =
+      [("mk_function", "function"), ("mk_enum", "enumeration"), ("mk_constant", "constant"),
+       ("getattr(builtin_ee, s_ee.Key_Lett)", "external entity"), ("mk_external_entity", "external entity")] ∧
+    domain = { addUntyped := true, addByKindIfKind := true, kindsInOrder := true,
+               perKind := [.byKind, .classWhenKind "class"], afterKinds := [.untyped, .findClass] } ∧
+    (walkers.map (fun w => (w.name, w.methods, decide ("return_value" ∈ w.noneAttrs)))) =
+      [("ActionWalker", ["__init__", "accept", "default_accept"], true),
+       ("FunctionWalker", ["__init__", "accept_ParamAccessNode"], true),
+       ("OperationWalker", ["__init__", "accept_ParamAccessNode", "accept_SelfAccessNode"], true),
+       ("DerivedAttributeWalker", ["__init__", "accept_SelfAccessNode", "accept_FieldAccessNode"], true)] ∧
+    mk_external_entity.namesFrom = mk_external_entity.funcsFrom ∧ mk_external_entity.maker = "mk_bridge" := by
+  decide +kernel
+
+/-! non-vacuity: the generic interpreter RUNS the generated IR — through the parameter list, find_symbol, getattr, the lambda
+    of the mk_* constructor, the run function, the walker's constructor chain, the body — and delivers the values; on statement
+    structures OTHER than the generated ones (hand-mutated below) it delivers something else, so the equalities above are not
+    equalities any IR would satisfy -/
+
+def noU : String → Option Sym := fun _ => none
+def errOfR {α : Type} (r : Res α) : Option String := match r with | some (.error e) => some e.msg | _ => none
+def kwOfR (r : Res (List (String × Val))) : Option (List (String × Val)) := match r with | some (.ok (v, _)) => some v | _ => none
+
+/-- two parameters: collected in source order under their names; the FIRST is evaluated first (of two failing expressions the
+    first one's error shows); storing every value under one literal key, or fetching the callee before the parameters, is visible -/
+example : kwOfR (handlerK C1 gen (domOf C1 noU) (run C1 0) { children := [("a", pure (.int 10)), ("b", pure (.int 3))] }
+      accept_ParameterListNode cfg1) = some [("a", .int 10), ("b", .int 3)] ∧
+    errOfR (handlerK C1 gen (domOf C1 noU) (run C1 0) { children := [("a", M.fail "first"), ("b", M.fail "second")] }
+      accept_ParameterListNode cfg1) = some "first" ∧
+    kwOfR (handlerK C1 gen (domOf C1 noU) (run C1 0) { children := [("a", pure (.int 10)), ("b", pure (.int 3))] }
+      [.assign "kwargs" .newDict,
+       .forChildren "child" [.assign "value" (.acceptOfFget "child" "expression"), .setItem "kwargs" (.lit "a") "value"],
+       .ret (.local "kwargs")] cfg1) = some [("a", .int 10), ("a", .int 3)] ∧
+    errOfR (handlerK C1 gen (domOf C1 noU) (run C1 0) { children := [("a", pure (.int 10))] }
+      [.setSelf "parameters" .newDict, .forChildren "child" [.expr (.acceptLocal "child")], .ret (.selfAttr "parameters")] cfg1) =
+      some "a handler stores into the walker" := by
+  decide +kernel
+
+/-- a call NESTED in the second actual parameter: `::sub2(a: 100, b: ::sub2(a: 30, b: 4))` is 74 through the interpreted source
+    (the inner call has its own dict and its own walker) — and that is `Spec`'s value, by `function_call_as_in_source` -/
+def nested : List (String × Expr) := [("a", .int 100), ("b", .call .function "sub2" [("a", .int 30), ("b", .int 4)])]
+example : valOfR (handlerE C1 gen (domOf C1 noU) (run C1 8)
+      (invNode C1 gen (domOf C1 noU) (run C1 8) [("action_name", "sub2")] none nested) accept_FunctionInvocationNode cfg1) =
+      some (.int 74) := by
+  decide +kernel
+example : evalStep C1 (run C1 8) (.call .function "sub2" nested) =
+    handlerE C1 gen (domOf C1 noU) (run C1 8) (invNode C1 gen (domOf C1 noU) (run C1 8) [("action_name", "sub2")] none nested)
+      accept_FunctionInvocationNode :=
+  function_call_as_in_source C1 noU (run C1 8) "sub2" nested
+    ⟨.function, "sub2", [.ret (some (.bin .sub (.param "a") (.param "b")))]⟩ (by rfl)
+
+/-- asking find_symbol for another kind finds nothing here; an instance operation called WITHOUT the instance does not run;
+    the generated handler runs `a.bump(d: 5)` on the instance: 3 + 5 -/
+def cfgA : Cfg := { cfg1 with fr := { cfg1.fr with env := [[("a", .inst ⟨"A", 0⟩)]] } }
+example : errOfR (handlerE C1 gen (domOf C1 noU) (run C1 8)
+      (invNode C1 gen (domOf C1 noU) (run C1 8) [("action_name", "sub2")] none nested)
+      [.assign "kwargs" (.accept "parameter_list"), .assign "fn" (.domainFind (.field "action_name") ["constant"] false),
+       .assign "value" (.callKw "fn" [] "kwargs"), .ret (.property "value")] cfg1) = some "Unknown symbol sub2" ∧
+    valOfR (handlerE C1 gen (domOf C1 noU) (run C1 8)
+      (invNode C1 gen (domOf C1 noU) (run C1 8) [("action_name", "bump")] (some (lookupVar C1 "a")) [("d", .int 5)])
+      accept_InstanceInvocationNode cfgA) = some (.int 8) ∧
+    errOfR (handlerE C1 gen (domOf C1 noU) (run C1 8)
+      (invNode C1 gen (domOf C1 noU) (run C1 8) [("action_name", "bump")] (some (lookupVar C1 "a")) [("d", .int 5)])
+      [.assign "inst" (.acceptFget "handle"), .assign "op" (.getattrClass "inst" (.field "action_name")),
+       .assign "kwargs" (.accept "parameter_list"), .assign "value" (.callKw "op" [] "kwargs"), .ret (.property "value")] cfgA) =
+      some "arguments of the call" := by
+  decide +kernel
+
+/-- `self` of a class-based operation: the generated lambda passes None (`A::whoami()` sees an empty handle: 1); a lambda that
+    passed its `cls` on, or a run_operation that built a FunctionWalker, does not produce an operation frame at all -/
+def whoami : Callable := ⟨.classOp "A", "whoami", [.ifS (.un .empty .self) [.ret (some (.int 1))] [] none, .ret (some (.int 0))]⟩
+example : valOfR (callCallee gen (run C1 8) ⟨mk_operation_class_based, whoami, some "A"⟩ [] (some []) cfg1) = some (.int 1) ∧
+    errOfR (callCallee gen (run C1 8)
+      ⟨{ mk_operation_class_based with args := [.name "metaclass", .name "label", .name "action", .name "kwargs", .name "cls"] },
+       whoami, some "A"⟩ [] (some []) cfg1) = some "accept" ∧
+    errOfR (callCallee { gen with runs := [("run_operation",
+        { run_operation with body := [.assign "w" (.construct "FunctionWalker" [.attr "metaclass" "metamodel", .name "kwargs"]),
+            .assign "root" (.parse "action" "label"), .expr (.acceptOn "w" "root"), .ret (.localAttr "w" "return_value")] })] }
+      (run C1 8) ⟨mk_operation_class_based, whoami, some "A"⟩ [] (some []) cfg1) = some "self in a function" := by
+  decide +kernel
+
+/-- `Color::blue` is 2 (the chain red, green, blue); looked up among the constants first it is not found as an enumeration;
+    R56 followed the other way numbers the enumerators backwards; another conversion table reads the constant as a string -/
+example : valOfR (handlerE C1 gen (domOf C1 noU) (run C1 0)
+      { str := fun f => ([("namespace", "Color"), ("name", "blue")].lookup f).getD "" } accept_EnumOrNamedConstantNode cfg1) =
+      some (.int 2) ∧
+    errOfR (handlerE C1 gen (domOf C1 noU) (run C1 0)
+      { str := fun f => ([("namespace", "Color"), ("name", "blue")].lookup f).getD "" }
+      [.assign "item" (.domainFind (.field "name") ["constant"] false), .assign "value" (.getattr "item" (.field "name")),
+       .ret (.property "value")] cfg1) = some "Unknown symbol blue" ∧
+    iEnumOrder mk_enum [⟨12, "blue", 11⟩, ⟨10, "red", 0⟩, ⟨11, "green", 10⟩] = ["red", "green", "blue"] ∧
+    iEnumOrder { mk_enum with firstPhrase := "precedes", stepPhrase := "succeeds" }
+      [⟨12, "blue", 11⟩, ⟨10, "red", 0⟩, ⟨11, "green", 10⟩] = ["blue", "green", "red"] ∧
+    iConst mk_constant "integer" "42" = some (.int 42) ∧
+    iConst [("boolean", .lowerIsTrue), ("integer", .str)] "integer" "42" = some (.str "42") := by
   decide +kernel
 
 end PyxProps.C15
